@@ -297,17 +297,24 @@ theorem deltaDec_deltaEnc16 (b : Bytes) (n : Nat) (h : b.length = 2 * n) : delta
 /-- 16-bit sign conversion is an involution on byte strings of even length -/
 theorem flip16_twice (w : Nat) (h : w < 65536) : ((w + 32768) % 65536 + 32768) % 65536 = w := by omega
 
+/-- the word map of `signFlip true` -/
+def flipW (w : Nat) : Nat := (w + 0x8000) % 0x10000
+
+theorem flipW_lt (w : Nat) : flipW w < 65536 := by unfold flipW; omega
+theorem flipW_flipW (w : Nat) (h : w < 65536) : flipW (flipW w) = w := by unfold flipW; omega
+
+theorem signFlip16_eq (b : Bytes) : signFlip true b = unwords ((words b).map flipW) := by
+  unfold signFlip; simp only [if_true]; rfl
+
 theorem signFlip16_involutive (b : Bytes) (n : Nat) (h : b.length = 2 * n) : signFlip true (signFlip true b) = b := by
-  unfold signFlip
-  simp only [if_true]
-  rw [words_unwords _ (by intro w hw; simp only [List.mem_map] at hw; obtain ⟨y, _, rfl⟩ := hw; exact Nat.mod_lt _ (by decide)), List.map_map]
-  have : (words b).map ((fun w => (w + 0x8000) % 0x10000) ∘ fun w => (w + 0x8000) % 0x10000) = words b := by
+  rw [signFlip16_eq, signFlip16_eq,
+    words_unwords _ (by intro w hw; simp only [List.mem_map] at hw; obtain ⟨y, _, rfl⟩ := hw; exact flipW_lt y),
+    List.map_map]
+  have : (words b).map (flipW ∘ flipW) = words b := by
     conv => rhs; rw [← List.map_id (words b)]
     apply List.map_congr_left
     intro w hw
-    have := words_lt b w hw
-    simp only [Function.comp, id]
-    exact flip16_twice w this
+    exact flipW_flipW w (words_lt b w hw)
   rw [this, unwords_words n b h]
 
 end Xmp.Fmt
